@@ -406,6 +406,18 @@ def _decision_table(ctx: Context) -> None:
                     break
                 cur = nxt[0]
                 continue
+            if n.kind == "stmt" and type(n.ast) is ast.Assign and len(n.ast.targets) == 1:
+                # one row of a table loop the loader spelled out: `code, exc = (K, SomeError)`  (or `x = K`)
+                tg = n.ast.targets[0]
+                names = [tg] if isinstance(tg, ast.Name) else list(tg.elts) if isinstance(tg, (ast.Tuple, ast.List)) else []
+                cells = _row_cells(ctx, cfg.func.module, n.ast.value if len(names) > 1 else ast.Tuple(elts=[n.ast.value], ctx=ast.Load()))
+                if names and all(isinstance(x, ast.Name) for x in names):
+                    if cells is not None and len(cells) == len(names):
+                        for x, v in zip(names, cells):
+                            env[x.id] = v
+                    else:
+                        for x in names:
+                            env.pop(x.id, None)
             nxt = [d for (d, l, _e) in n.succ if l in ("n",)]
             if len(nxt) != 1:
                 result = None
@@ -467,20 +479,28 @@ def _table_rows(ctx: Context, f, it: ast.AST):
     m = ctx.prog.modules[parts[0]]
     rows = []
     for row in lits[0].elts:
-        cells = []
-        for cell in (row.elts if isinstance(row, (ast.Tuple, ast.List)) else [row]):
-            dd = dotted(cell)
-            rr = ctx.prog.resolve_dotted(m, dd) if dd else None
-            if rr and (rr in ctx.prog.classes or ctx.prog.known_class(rr)):
-                cells.append(("cls", rr))
-                continue
-            try:
-                c = ctx.prog.eval_const(cell, m, None)
-            except Exception:  # noqa: BLE001
-                return None
-            cells.append(("c", bytes(c) if isinstance(c, bytearray) else c))
-        rows.append(tuple(cells))
+        cells = _row_cells(ctx, m, row)
+        if cells is None:
+            return None
+        rows.append(cells)
     return rows
+
+
+def _row_cells(ctx: Context, m, row: ast.AST):
+    """One table row as a tuple of ('c', constant) / ('cls', qualname) cells, or None."""
+    cells = []
+    for cell in (row.elts if isinstance(row, (ast.Tuple, ast.List)) else [row]):
+        dd = dotted(cell)
+        rr = ctx.prog.resolve_dotted(m, dd) if dd else None
+        if rr and (rr in ctx.prog.classes or ctx.prog.known_class(rr)):
+            cells.append(("cls", rr))
+            continue
+        try:
+            c = ctx.prog.eval_const(cell, m, None)
+        except Exception:  # noqa: BLE001
+            return None
+        cells.append(("c", bytes(c) if isinstance(c, bytearray) else c))
+    return tuple(cells)
 
 
 def _eval_test(ctx: Context, cfg, n, pname: str, val: bytes, env=None):
